@@ -1,6 +1,822 @@
-//! Hybrid scenario (placeholder until simdev is in place).
-use crate::types::Case;
-pub fn exec(_case: &Case) {
-    panic!("fsim: hybrid scenario not built yet");
+//! Hybrid scenario: the real `HybridCache` (memory cache -> store -> keeper -> block engine with flushers, reclaimers,
+//! recovery, tombstone log) over the simulated device, driven by one foreground client plus foyer's own background
+//! tasks. The oracle for value correctness (C01 and friends) runs inline: the client is sequential, so the reference
+//! model is a map from key to its current version.
+
+use std::{
+    cell::RefCell,
+    collections::{BTreeMap, BTreeSet},
+    sync::{
+        Arc,
+        atomic::{AtomicU32, Ordering},
+    },
+};
+
+use foyer::{
+    BlockEngineConfig, Compression, EvictionPicker, FifoPicker, HybridCache, HybridCacheBuilder, HybridCacheEntry,
+    HybridCachePolicy, HybridCacheProperties, InvalidRatioPicker, IoEngineConfig, Location, RecoverMode, Source,
+    Statistics, StorageFilter, StorageFilterCondition, StorageFilterResult,
+};
+use foyer_common::spawn::Spawner;
+use foyer_storage::test_utils::{Holder, Switch};
+
+use crate::{
+    hist,
+    memscn::{eviction_config, runtime_shutdown},
+    parser,
+    simdev::{self, PAGE, SimDevice, SimIoEngineConfig},
+    types::{Case, Op, OpRec, Res, SimHasher, Tagged, check_value, make_value},
+};
+
+pub type HCache = HybridCache<u64, Vec<u8>, SimHasher>;
+pub type HEntry = HybridCacheEntry<u64, Vec<u8>, SimHasher>;
+
+// ---------------------------------------------------------------------------------------------------------------
+// Geometry and value sizes
+
+#[derive(Clone, Debug)]
+pub struct Geo {
+    pub block_size: usize,
+    pub blocks: usize,
+    pub blob_index_size: usize,
+    pub tomb: bool,
+    pub tomb_pages: usize,
+    pub capacity: usize,
+    pub max_entry: usize,
+    pub flushers: usize,
+    pub buf_per_flusher: usize,
 }
-pub fn oracle(_case: &Case) {}
+
+pub fn geo(case: &Case) -> Geo {
+    let block_size = case.get("block_pages").max(2) as usize * PAGE;
+    let blocks = case.get("blocks").max(2) as usize;
+    let blob_index_size = case.get("blob_pages").max(1) as usize * PAGE;
+    let tomb = case.get("tomb") != 0;
+    let mut tomb_pages = 0usize;
+    if tomb {
+        // the engine sizes the log from the device capacity: one slot per device page, 256 slots per log page
+        tomb_pages = 1;
+        loop {
+            let cap = blocks * block_size + tomb_pages * PAGE;
+            let need = (cap / PAGE).div_ceil(256);
+            if need <= tomb_pages {
+                break;
+            }
+            tomb_pages = need;
+        }
+    }
+    let flushers = case.get("flushers").max(1) as usize;
+    let buf_pages = case.get("buf_pages").max(flushers as i64) as usize;
+    Geo {
+        block_size,
+        blocks,
+        blob_index_size,
+        tomb,
+        tomb_pages,
+        capacity: blocks * block_size + tomb_pages * PAGE,
+        max_entry: block_size - blob_index_size,
+        flushers,
+        buf_per_flusher: (buf_pages * PAGE / flushers) / PAGE * PAGE,
+    }
+}
+
+/// Serialized entry = 36 header + (8 length prefix + value bytes) + 8 key bytes.
+pub const ENTRY_OVERHEAD: usize = 36 + 8 + 8;
+
+/// Value length for a size class. 0 tiny, 1 sub-page, 2 one page exactly (aligned), 3 one page + 1 byte,
+/// 4 multi-page, 5 exactly the per-entry maximum, 6 one byte beyond the maximum.
+pub fn value_len(g: &Geo, class: u32, ver: u32) -> usize {
+    let max_len = g.max_entry - ENTRY_OVERHEAD;
+    let l = match class {
+        0 => 20,
+        1 => 100 + (ver as usize * 37) % 2000,
+        2 => PAGE - ENTRY_OVERHEAD,
+        3 => PAGE - ENTRY_OVERHEAD + 1,
+        4 => PAGE + 100 + (ver as usize * 911) % (2 * PAGE),
+        5 => max_len,
+        _ => max_len + 1,
+    };
+    if class <= 4 { l.min(max_len) } else { l }
+}
+
+// ---------------------------------------------------------------------------------------------------------------
+// Filters controlled by the scenario
+
+#[derive(Debug, Default)]
+pub struct FilterCtl {
+    /// 0 admit, 1 reject, 2 throttled
+    pub admission_mode: AtomicU32,
+    /// keys (hashes) with hash % m == m-1 are rejected by the admission filter (0: none)
+    pub reject_mod: AtomicU32,
+    /// hashes with hash % m == 0 are reinserted on reclaim (0: none)
+    pub reinsert_mod: AtomicU32,
+}
+
+#[derive(Debug)]
+struct Admission(Arc<FilterCtl>);
+impl StorageFilterCondition for Admission {
+    fn filter(&self, _: &Arc<Statistics>, hash: u64, _: usize) -> StorageFilterResult {
+        hist::ev("admission_filter", hash, 0, 0);
+        crate::hybscn::callback_check("admission_filter");
+        let m = self.0.reject_mod.load(Ordering::Relaxed) as u64;
+        if m > 0 && hash % m == m - 1 {
+            return StorageFilterResult::Reject;
+        }
+        match self.0.admission_mode.load(Ordering::Relaxed) {
+            0 => StorageFilterResult::Admit,
+            1 => StorageFilterResult::Reject,
+            _ => StorageFilterResult::Throttled(std::time::Duration::from_millis(1)),
+        }
+    }
+}
+
+#[derive(Debug)]
+struct Reinsertion(Arc<FilterCtl>);
+impl StorageFilterCondition for Reinsertion {
+    fn filter(&self, _: &Arc<Statistics>, hash: u64, _: usize) -> StorageFilterResult {
+        crate::hybscn::callback_check("reinsertion_filter");
+        let m = self.0.reinsert_mod.load(Ordering::Relaxed) as u64;
+        if m > 0 && hash % m == 0 { StorageFilterResult::Admit } else { StorageFilterResult::Reject }
+    }
+}
+
+pub fn callback_check(site: &'static str) {
+    let on = ST.with(|s| s.borrow().check_locks);
+    if on {
+        let held = foyer_common::verif::locks_held();
+        hist::probe("callback_checked");
+        if held > 0 {
+            hist::violation(
+                "C16",
+                "callback-under-lock",
+                format!("{site} invoked while the calling task holds {held} foyer lock(s)"),
+                &[("site", site.to_string())],
+            );
+        }
+    }
+}
+
+// ---------------------------------------------------------------------------------------------------------------
+// Reference model (sequential client)
+
+#[derive(Clone, Debug, Default)]
+pub struct KeyModel {
+    /// current version (latest completed insert not followed by a completed remove / clear)
+    pub cur: Option<u32>,
+    /// every version ever written for the key -> (length, location class, handed to the disk tier at seq)
+    pub versions: BTreeMap<u32, VerInfo>,
+    /// versions below this were removed / cleared (or superseded before such an operation)
+    pub floor: u32,
+    /// an overload shed happened for this key's hash since its last successful hand-over / delete
+    pub shed: bool,
+    /// oversize shed (strict; only recorded for diagnostics)
+    pub oversize_shed: bool,
+    /// the last removal of the key was a clear() (diagnostics / finding classification)
+    pub floor_by_clear: bool,
+    /// event sequence number of the last remove / clear of the key
+    pub removed_at: u64,
+}
+
+#[derive(Clone, Debug, Default)]
+pub struct VerInfo {
+    pub len: usize,
+    pub loc: u8,
+    pub class: u32,
+}
+
+#[derive(Default)]
+pub struct HybState {
+    pub model: BTreeMap<u64, KeyModel>,
+    pub next_ver: u32,
+    pub check_locks: bool,
+    pub restarts: u32,
+    pub prop: String,
+    pub oplog: Vec<OpRec>,
+    pub hmode: u8,
+    pub keys: u64,
+    pub closed: bool,
+    /// sequence numbers assigned by the engine: sequence -> (hash) in submission order
+    pub enqueued: Vec<(u64, u64, u64)>,
+    /// (task, key) -> version of the last memory eviction notification seen by that task
+    pub last_leave: BTreeMap<(usize, u64), u32>,
+    /// hand-offs to the disk tier attributed to versions: (key, version, engine sequence, task)
+    pub handoffs: Vec<(u64, u32, u64, u64)>,
+}
+
+thread_local! {
+    pub static ST: RefCell<HybState> = RefCell::new(HybState::default());
+    /// invoke sequence number of the client operation in progress
+    pub static OP_INV: std::cell::Cell<u64> = const { std::cell::Cell::new(0) };
+}
+
+pub fn hash_of(hmode: u8, k: u64) -> u64 {
+    match hmode {
+        1 => k / 2,
+        2 => k.wrapping_mul(8),
+        _ => k,
+    }
+}
+
+fn on_foyer_event(kind: &'static str, a: u64, b: u64) {
+    match kind {
+        "shed" => {
+            hist::ev("shed", a, b, 0);
+            hist::probe(match b {
+                1 => "shed_no_header_space",
+                2 => "shed_buffer_size_limit",
+                3 => "shed_larger_than_max_entry",
+                5 => "shed_queue_threshold",
+                _ => "shed_other",
+            });
+            ST.with(|s| {
+                let mut s = s.borrow_mut();
+                let hmode = s.hmode;
+                for (k, m) in s.model.iter_mut() {
+                    if hash_of(hmode, *k) == a {
+                        if b == 3 {
+                            m.oversize_shed = true;
+                        } else {
+                            m.shed = true;
+                        }
+                    }
+                }
+            });
+        }
+        "enqueue" => {
+            hist::ev("enqueue", a, b, 0);
+            ST.with(|s| {
+                let mut s = s.borrow_mut();
+                let hmode = s.hmode;
+                let now = hist::now();
+                s.enqueued.push((b, a, now));
+                let task = shuttle::current::get_current_task().map(usize::from).unwrap_or(usize::MAX);
+                let keys: Vec<u64> = s.model.keys().copied().filter(|k| hash_of(hmode, *k) == a).collect();
+                for k in keys {
+                    if let Some(v) = s.last_leave.get(&(task, k)).copied() {
+                        s.handoffs.push((k, v, b, task as u64));
+                    }
+                }
+                for (k, m) in s.model.iter_mut() {
+                    if hash_of(hmode, *k) == a {
+                        m.shed = false;
+                        m.oversize_shed = false;
+                    }
+                }
+            });
+        }
+        "skip_young" => {
+            hist::ev("skip_young", a, 0, 0);
+            hist::probe("skip_young");
+        }
+        "shed_reinsertion" => {
+            hist::ev("shed_reinsertion", a, b, 0);
+            hist::probe("shed_reinsertion");
+        }
+        _ => {}
+    }
+}
+
+// ---------------------------------------------------------------------------------------------------------------
+// Recording listener of the memory tier (attributes evictions, and thereby disk hand-offs, to versions)
+
+struct HybListener;
+
+impl foyer::EventListener for HybListener {
+    type Key = u64;
+    type Value = Vec<u8>;
+    fn on_leave(&self, reason: foyer::Event, key: &u64, value: &Vec<u8>) {
+        let r = match reason {
+            foyer::Event::Evict => 0,
+            foyer::Event::Replace => 1,
+            foyer::Event::Remove => 2,
+            foyer::Event::Clear => 3,
+        };
+        let ver = match check_value(value) {
+            Tagged::Ok { key: k, ver, .. } if k == *key => ver,
+            _ => u32::MAX,
+        };
+        hist::ev("mem_leave", r, *key, ver as u64);
+        callback_check("listener");
+        let task = shuttle::current::get_current_task().map(usize::from).unwrap_or(usize::MAX);
+        ST.with(|s| {
+            s.borrow_mut().last_leave.insert((task, *key), ver);
+        });
+    }
+}
+
+// ---------------------------------------------------------------------------------------------------------------
+// Building the cache
+
+pub struct Ctl {
+    pub filter: Arc<FilterCtl>,
+    pub holder: Holder,
+    pub flush_switch: Switch,
+}
+
+pub async fn open(case: &Case, ctl: &Ctl) -> Result<HCache, String> {
+    let g = geo(case);
+    let dev = SimDevice::new(g.capacity);
+    let policy = if case.get("policy") == 1 { HybridCachePolicy::WriteOnInsertion } else { HybridCachePolicy::WriteOnEviction };
+    let pickers: Vec<Box<dyn EvictionPicker>> = match case.get("picker") {
+        1 => vec![Box::new(FifoPicker::new(1.0))],
+        2 => vec![Box::new(FifoPicker::new(0.0))],
+        _ => vec![Box::new(InvalidRatioPicker::new(0.8)), Box::<FifoPicker>::default()],
+    };
+    let mut engine = BlockEngineConfig::new(dev)
+        .with_block_size(g.block_size)
+        .with_blob_index_size(g.blob_index_size)
+        .with_flushers(g.flushers)
+        .with_reclaimers(case.get("reclaimers").max(1) as usize)
+        .with_clean_block_threshold(case.get("clean_thr").max(1) as usize)
+        .with_buffer_pool_size(g.buf_per_flusher * g.flushers)
+        .with_indexer_shards(case.get("idx_shards").max(1) as usize)
+        .with_recover_concurrency(case.get("rec_conc").max(1) as usize)
+        .with_tombstone_log(g.tomb)
+        .with_eviction_pickers(pickers)
+        .with_admission_filter(StorageFilter::new().with_condition(Admission(ctl.filter.clone())))
+        .with_reinsertion_filter(StorageFilter::new().with_condition(Reinsertion(ctl.filter.clone())))
+        .with_load_holder(ctl.holder.clone())
+        .with_flush_switch(ctl.flush_switch.clone());
+    if case.get("submit_thr_pages") > 0 {
+        engine = engine.with_submit_queue_size_threshold(case.get("submit_thr_pages") as usize * PAGE);
+    }
+    let compression = match case.get("comp") {
+        1 => Compression::Zstd,
+        2 => Compression::Lz4,
+        _ => Compression::None,
+    };
+    let b = HybridCacheBuilder::new()
+        .with_event_listener(Arc::new(HybListener))
+        .with_policy(policy)
+        .with_flush_on_close(case.get("flush_on_close") != 0)
+        .memory(case.get("mem_cap").max(0) as usize)
+        .with_shards(case.get("mem_shards").max(1) as usize)
+        .with_eviction_config(eviction_config(case.get("algo"), case.get("variant")))
+        .with_hash_builder(SimHasher { mode: case.get("hmode") as u8 })
+        .with_weighter(|_, _| 1)
+        .storage()
+        .with_io_engine_config(Box::new(SimIoEngineConfig) as Box<dyn IoEngineConfig>)
+        .with_engine_config(engine)
+        .with_compression(compression)
+        .with_recover_mode(RecoverMode::Quiet);
+    b.build().await.map_err(|e| format!("{e}"))
+}
+
+pub fn new_ctl(case: &Case) -> Ctl {
+    let filter = Arc::new(FilterCtl::default());
+    filter.reject_mod.store(case.get("reject_mod").max(0) as u32, Ordering::Relaxed);
+    filter.reinsert_mod.store(case.get("reinsert_mod").max(0) as u32, Ordering::Relaxed);
+    Ctl { filter, holder: Holder::default(), flush_switch: Switch::default() }
+}
+
+// ---------------------------------------------------------------------------------------------------------------
+// Judging a value that came back
+
+fn shape_common(case: &Case, after_restart: bool) -> Vec<(&'static str, String)> {
+    vec![
+        ("policy", if case.get("policy") == 1 { "woi".into() } else { "woe".into() }),
+        ("tomb", (case.get("tomb") != 0).to_string()),
+        ("after_restart", after_restart.to_string()),
+    ]
+}
+
+/// Returns the observed (key, version) or None for a rejected value; reports violations of the value oracle.
+pub fn judge(case: &Case, k: u64, bytes: &[u8], via: &str) -> Res {
+    let prop = case.property.as_str();
+    let (restarts, km) = ST.with(|s| {
+        let s = s.borrow();
+        (s.restarts, s.model.get(&k).cloned().unwrap_or_default())
+    });
+    let mut shape = shape_common(case, restarts > 0);
+    shape.push(("via", via.to_string()));
+    match check_value(bytes) {
+        Tagged::Garbage => {
+            hist::violation(prop, "garbage-value", format!("lookup of key {k} via {via} returned {} bytes that no insert produced", bytes.len()), &shape);
+            Res { tag: Res::BAD, ..Default::default() }
+        }
+        Tagged::Ok { key, ver, .. } if key != k => {
+            hist::violation(prop, "foreign-value", format!("lookup of key {k} via {via} returned the value written for key {key} (v{ver})"), &shape);
+            Res { tag: Res::BAD, key, ver, ..Default::default() }
+        }
+        Tagged::Ok { ver, len, .. } => {
+            if km.cur == Some(ver) {
+                if km.versions.len() >= 2 {
+                    hist::probe("current_of_multi_version_key_served");
+                }
+                return Res::hit(k, ver, len as u32, 0);
+            }
+            if !km.versions.contains_key(&ver) {
+                hist::violation(prop, "garbage-value", format!("lookup of key {k} via {via} returned unknown version v{ver}"), &shape);
+                return Res { tag: Res::BAD, key: k, ver, ..Default::default() };
+            }
+            if km.shed && ver >= km.floor {
+                // documented overload exclusion: the newer write was shed, an older copy may resurface
+                hist::probe("stale_excused_by_shed");
+                return Res::hit(k, ver, len as u32, 1);
+            }
+            let (rule, what) = if ver < km.floor { ("removed-value", "a removed / cleared value") } else { ("stale-value", "an older version") };
+            shape.push(("oversize_current", km.oversize_shed.to_string()));
+            shape.push(("key_class", key_class(case, k).to_string()));
+            if ver < km.floor {
+                shape.push(("by_clear", km.floor_by_clear.to_string()));
+                // was this key's hash handed to the disk tier after the removal although nothing was inserted since?
+                let hmode = case.get("hmode") as u8;
+                // was exactly this (removed) version handed to the disk tier by a background task's eviction whose
+                // device write was issued only after the removal had started? (the hand-off raced the removal)
+                let hmode = case.get("hmode") as u8;
+                let client_task = shuttle::current::get_current_task().map(usize::from).unwrap_or(usize::MAX) as u64;
+                let seqs: Vec<u64> = ST.with(|s| {
+                    s.borrow().handoffs.iter().filter(|(hk, hv, _, t)| *hk == k && *hv == ver && *t != client_task).map(|x| x.2).collect()
+                });
+                let late = !seqs.is_empty()
+                    && simdev::DISK.with(|d| {
+                        d.borrow().writes.iter().any(|w| {
+                            w.issue_seq > km.removed_at
+                                && parser::parse_entries(&w.data).iter().any(|e| e.header.hash == hash_of(hmode, k) && seqs.contains(&e.header.sequence))
+                        })
+                    });
+                shape.push(("handoff_during_or_after_removal", late.to_string()));
+            }
+            hist::violation(
+                prop,
+                rule,
+                format!("lookup of key {k} via {via} returned v{ver} ({what}); current is {:?}, floor v{}", km.cur, km.floor),
+                &shape,
+            );
+            Res { tag: Res::BAD, key: k, ver, ..Default::default() }
+        }
+    }
+}
+
+fn model_write(k: u64, ver: u32, len: usize, loc: u8, class: u32) {
+    ST.with(|s| {
+        let mut s = s.borrow_mut();
+        let m = s.model.entry(k).or_default();
+        m.cur = Some(ver);
+        m.versions.insert(ver, VerInfo { len, loc, class });
+    });
+}
+
+fn model_remove(k: u64) {
+    ST.with(|s| {
+        let mut s = s.borrow_mut();
+        let nv = s.next_ver + 1;
+        let m = s.model.entry(k).or_default();
+        m.cur = None;
+        m.floor = nv;
+        m.shed = false;
+        m.oversize_shed = false;
+        m.floor_by_clear = false;
+        m.removed_at = OP_INV.with(|c| c.get());
+    });
+}
+
+fn model_clear() {
+    ST.with(|s| {
+        let mut s = s.borrow_mut();
+        let nv = s.next_ver + 1;
+        let now = OP_INV.with(|c| c.get());
+        for m in s.model.values_mut() {
+            m.cur = None;
+            m.floor = nv;
+            m.shed = false;
+            m.oversize_shed = false;
+            m.floor_by_clear = true;
+            m.removed_at = now;
+        }
+    });
+}
+
+fn fresh_ver() -> u32 {
+    ST.with(|s| {
+        let mut s = s.borrow_mut();
+        s.next_ver += 1;
+        s.next_ver
+    })
+}
+
+// ---------------------------------------------------------------------------------------------------------------
+// Executor
+
+pub struct Hyb {
+    pub case: Case,
+    pub ctl: Ctl,
+    pub cache: Option<HCache>,
+    pub g: Geo,
+    pub held: Vec<HEntry>,
+}
+
+/// Placement class of a key for the whole run (0 default, 1 in-memory only, 2 on-disk).
+pub fn key_class(case: &Case, k: u64) -> u8 {
+    let (im, od) = (case.get("inmem_mod") as u64, case.get("ondisk_mod") as u64);
+    if im > 0 && k % im == 1 {
+        1
+    } else if od > 0 && k % od == 2 {
+        2
+    } else {
+        0
+    }
+}
+
+fn loc_of(l: u8) -> Location {
+    match l {
+        1 => Location::InMem,
+        2 => Location::OnDisk,
+        _ => Location::Default,
+    }
+}
+
+impl Hyb {
+    pub async fn shutdown(&mut self, graceful: bool) {
+        self.held.clear();
+        if let Some(c) = self.cache.take() {
+            if graceful {
+                hist::ev("close_inv", 0, 0, 0);
+                if let Err(e) = c.close().await {
+                    hist::note(format!("close error: {e}"));
+                }
+                hist::ev("close_ret", 0, 0, 0);
+            }
+            drop(c);
+        }
+        runtime_shutdown().await;
+        Spawner::verif_reset();
+    }
+
+    pub async fn reopen(&mut self) -> bool {
+        self.ctl = new_ctl(&self.case);
+        match open(&self.case, &self.ctl).await {
+            Ok(c) => {
+                self.cache = Some(c);
+                ST.with(|s| {
+                    let mut s = s.borrow_mut();
+                    s.restarts += 1;
+                    s.closed = false;
+                });
+                hist::ev("reopened", 0, 0, 0);
+                true
+            }
+            Err(e) => {
+                hist::violation(&self.case.property, "reopen-failed", format!("opening the store failed: {e}"), &[]);
+                false
+            }
+        }
+    }
+
+    pub async fn exec_op(&mut self, op: &Op) -> Res {
+        let case = self.case.clone();
+        let Some(cache) = self.cache.clone() else { return Res::unit() };
+        match op {
+            Op::Insert { k, w, loc, hold, .. } => {
+                let ver = fresh_ver();
+                let len = value_len(&self.g, *w, ver);
+                let v = make_value(*k, ver, len, case.get("comp") != 0 && ver % 2 == 0);
+                let e = if *loc == 0 && ver % 2 == 0 {
+                    cache.insert(*k, v)
+                } else {
+                    cache.insert_with_properties(*k, v, HybridCacheProperties::default().with_location(loc_of(*loc)))
+                };
+                model_write(*k, ver, len, *loc, *w);
+                hist::ev("h_insert", *k, ver as u64, *loc as u64);
+                if *hold {
+                    self.held.push(e);
+                } else {
+                    drop(e);
+                }
+                Res::hit(*k, ver, len as u32, 0)
+            }
+            Op::WriterInsert { k, w, force, .. } => {
+                let ver = fresh_ver();
+                let len = value_len(&self.g, *w, ver);
+                let v = make_value(*k, ver, len, false);
+                let wr = cache.storage_writer(*k);
+                let wr = if *force { wr.force() } else { wr };
+                match wr.insert(v) {
+                    Some(e) => {
+                        // the entry is handed to the disk tier when the returned handle is dropped
+                        drop(e);
+                        model_write(*k, ver, len, 2, *w);
+                        hist::ev("h_insert", *k, ver as u64, 2);
+                        Res::hit(*k, ver, len as u32, 0)
+                    }
+                    None => Res::miss(),
+                }
+            }
+            Op::Get { k, hold } => match cache.get(k).await {
+                Ok(Some(e)) => {
+                    let r = judge(&case, *k, e.value(), "get");
+                    note_source(*k, e.source());
+                    hist::ev("h_get", *k, r.ver as u64, src(e.source()));
+                    if *hold {
+                        self.held.push(e);
+                    }
+                    r
+                }
+                Ok(None) => {
+                    hist::ev("h_get", *k, 0, 0);
+                    Res::miss()
+                }
+                Err(e) => Res::err(crate::memscn::err_kind(&e)),
+            },
+            Op::Fetch { k, w, yields, fail, hold, .. } => {
+                let kk = *k;
+                let (g, yields, fail, class) = (self.g.clone(), *yields, *fail, *w);
+                let kloc = key_class(&case, kk);
+                let fut = cache.get_or_fetch(k, move || async move {
+                    hist::ev("origin_start", kk, 0, 0);
+                    for _ in 0..yields {
+                        shuttle::future::yield_now().await;
+                    }
+                    if fail {
+                        hist::ev("origin_done", kk, 0, 1);
+                        return Err::<(Vec<u8>, HybridCacheProperties), _>(anyhow::anyhow!("origin failed"));
+                    }
+                    // the origin returns the source-of-truth value at the moment it resolves
+                    let cur = ST.with(|s| s.borrow().model.get(&kk).and_then(|m| m.cur.map(|v| (v, m.versions[&v].len))));
+                    let (ver, len) = match cur {
+                        Some(x) => x,
+                        None => {
+                            let ver = fresh_ver();
+                            let len = value_len(&g, class, ver);
+                            model_write(kk, ver, len, 0, class);
+                            (ver, len)
+                        }
+                    };
+                    hist::ev("origin_done", kk, ver as u64, 0);
+                    // the fetched entry carries the placement advice of its key's class (advice never alternates)
+                    Ok((make_value(kk, ver, len, false), HybridCacheProperties::default().with_location(loc_of(kloc))))
+                });
+                match fut.await {
+                    Ok(e) => {
+                        let r = judge(&case, *k, e.value(), "get_or_fetch");
+                        let s = src(e.source());
+                        hist::ev("h_fetch", *k, r.ver as u64, s);
+                        if *hold {
+                            self.held.push(e);
+                        }
+                        Res { aux: s, ..r }
+                    }
+                    Err(e) => Res::err(crate::memscn::err_kind(&e)),
+                }
+            }
+            Op::Contains { k } => Res::boolean(cache.contains(k)),
+            Op::Remove { k } => {
+                cache.remove(k);
+                model_remove(*k);
+                hist::ev("h_remove", *k, 0, 0);
+                Res::unit()
+            }
+            Op::Delete { k } => {
+                cache.storage().delete(k);
+                cache.memory().remove(k);
+                model_remove(*k);
+                hist::ev("h_remove", *k, 0, 0);
+                Res::unit()
+            }
+            Op::Clear => {
+                match cache.clear().await {
+                    Ok(()) => {
+                        model_clear();
+                        hist::ev("h_clear", 0, 0, 0);
+                        Res::unit()
+                    }
+                    Err(e) => Res::err(crate::memscn::err_kind(&e)),
+                }
+            }
+            Op::EvictAll => {
+                cache.memory().evict_all();
+                hist::ev("h_evict_all", 0, 0, 0);
+                Res::unit()
+            }
+            Op::Wait => {
+                hist::ev("wait_inv", 0, 0, 0);
+                cache.storage().wait().await;
+                hist::ev("wait_ret", 0, 0, 0);
+                Res::unit()
+            }
+            Op::Close => {
+                hist::ev("close_inv", 0, 0, 0);
+                let r = cache.close().await;
+                hist::ev("close_ret", 0, 0, 0);
+                ST.with(|s| s.borrow_mut().closed = true);
+                match r {
+                    Ok(()) => Res::boolean(true),
+                    Err(_) => Res::boolean(false),
+                }
+            }
+            Op::Reopen => {
+                drop(cache);
+                self.shutdown(true).await;
+                Res::boolean(self.reopen().await)
+            }
+            Op::DropHandle { idx } => {
+                if !self.held.is_empty() {
+                    let i = *idx as usize % self.held.len();
+                    drop(self.held.remove(i));
+                }
+                Res::unit()
+            }
+            Op::Yield { n } => {
+                for _ in 0..*n {
+                    shuttle::future::yield_now().await;
+                }
+                Res::unit()
+            }
+            Op::Ctl { what, arg } => {
+                match what {
+                    // admission mode
+                    10 => self.ctl.filter.admission_mode.store(*arg as u32, Ordering::Relaxed),
+                    // load throttle switch
+                    11 => {
+                        if *arg != 0 {
+                            cache.storage().load_throttle_switch().throttle()
+                        } else {
+                            cache.storage().load_throttle_switch().unthrottle()
+                        }
+                    }
+                    // hold / release disk loads
+                    12 => {
+                        if *arg != 0 {
+                            self.ctl.holder.hold()
+                        } else {
+                            self.ctl.holder.unhold()
+                        }
+                    }
+                    _ => {}
+                }
+                Res::unit()
+            }
+            _ => Res::unit(),
+        }
+    }
+}
+
+/// Reach probes + non-triviality: a read served by the disk tier for a key that has had several versions.
+pub fn note_source(k: u64, s: Source) {
+    if s == Source::Disk {
+        hist::probe("served_from_disk");
+        let multi = ST.with(|st| st.borrow().model.get(&k).map(|m| m.versions.len() >= 2).unwrap_or(false));
+        if multi {
+            hist::set_nontrivial();
+        }
+    }
+}
+
+fn src(s: Source) -> u64 {
+    match s {
+        Source::Outer => 1,
+        Source::Memory => 2,
+        Source::Disk => 3,
+    }
+}
+
+pub fn init_state(case: &Case) {
+    ST.with(|s| {
+        *s.borrow_mut() = HybState {
+            prop: case.property.clone(),
+            hmode: case.get("hmode") as u8,
+            keys: case.get("keys").max(1) as u64,
+            check_locks: case.get("check_locks") != 0,
+            ..Default::default()
+        };
+    });
+    simdev::reset_disk(case.get("max_delay").max(0) as usize);
+    foyer_common::verif::set_event_sink(on_foyer_event);
+}
+
+/// Entry point, runs inside the simulated execution (main task).
+pub fn exec(case: &Case) {
+    init_state(case);
+    let case = case.clone();
+    shuttle::future::block_on(async move {
+        let ctl = new_ctl(&case);
+        let cache = match open(&case, &ctl).await {
+            Ok(c) => c,
+            Err(e) => {
+                hist::violation(&case.property, "open-failed", format!("opening a fresh store failed: {e}"), &[]);
+                runtime_shutdown().await;
+                return;
+            }
+        };
+        let mut h = Hyb { g: geo(&case), case: case.clone(), ctl, cache: Some(cache), held: vec![] };
+        let ops = case.clients.first().cloned().unwrap_or_default();
+        for (idx, op) in ops.iter().enumerate() {
+            let inv = hist::ev("inv", 0, idx as u64, 0);
+            OP_INV.with(|c| c.set(inv));
+            let res = h.exec_op(op).await;
+            let ret = hist::ev("ret", 0, idx as u64, res.tag as u64);
+            ST.with(|s| s.borrow_mut().oplog.push(OpRec { client: 0, idx, op: op.clone(), inv, ret, res }));
+        }
+        crate::hyboracle::end_of_workload(&mut h).await;
+        h.shutdown(true).await;
+        hist::ev("end", 0, 0, 0);
+    });
+}
+
+pub fn oracle(case: &Case) {
+    crate::hyboracle::post(case);
+}
+
+// re-exports for the oracle module
+pub use parser::PAGE as PARSER_PAGE;
+pub type Keys = BTreeSet<u64>;
